@@ -2,6 +2,7 @@ from __future__ import annotations
 
 import dataclasses
 import logging
+import sys
 from copy import deepcopy
 from itertools import zip_longest
 from pathlib import Path
@@ -1115,11 +1116,21 @@ class MyPyAstVisitor:
     def _add_reexports(self, module: Module) -> None:
         for qualified_import in module.qualified_imports:
             name = qualified_import.qualified_name
+            if self._is_standard_library_import(name):
+                continue
             self.api.reexport_map[name].add(module)
 
         for wildcard_import in module.wildcard_imports:
             name = wildcard_import.module_name
+            if self._is_standard_library_import(name):
+                continue
             self.api.reexport_map[f"{name}.*"].add(module)
+
+    def _is_standard_library_import(self, name: str) -> bool:
+        # "import logging" or "from json import load" import from the standard library, whatever the modules and
+        # declarations of the package are called: they reexport nothing of the package
+        top_level_name = name.split(".")[0]
+        return top_level_name in sys.stdlib_module_names and top_level_name != self.api.package
 
     # #### Misc. utilities
     def mypy_type_to_abstract_type(
